@@ -138,6 +138,8 @@ class Ctx:
                     return lambda *a, **kw: self.run_body(x)
                 if k == "tuple":
                     return tuple(self.val(i) for i in x)
+                if k == "iter":
+                    return iter(list(x))  # an iterator without len()
                 if k == "devs":
                     return [self.world[n] for n in x]
             return {k: self.val(x) for k, x in v.items()}
